@@ -1,4 +1,419 @@
-//! stream `tags` — not implemented yet
-pub fn handle(_args: &[&str]) -> Option<String> {
-    None
+//! stream `tags` (C16): SET/SEQUENCE component order and tag assignment, decided by the real
+//! generator pipeline.
+//!
+//! request  `tags <set|seq|set!|seq!> <components> [<definitions>]`
+//!   components  `,`-separated (or `-`): `...` (extension marker) or `name:tag:type[?|!]`
+//!               (`?` = OPTIONAL, `!` = DEFAULT, only `bool!`/`int!`)
+//!               names: one lower-case letter, then digits
+//!   tag         `-` | `U<n>` | `A<n>` | `C<n>` | `P<n>` (at most 18 digits)
+//!   type        `bool int bits octs null enum utf8 num print vis ia5 seq seqof set setof`
+//!               (`seq`, `set`, `enum`: inline `SEQUENCE { s0 BOOLEAN }`, …) | `@Name` (type
+//!               reference) | `ch[v|v|...|v]` (inline CHOICE, `v` = `tag~type`, `...` = marker)
+//!   definitions `;`-separated `Name=tag:type` (or `-`); names: upper-case letter, then letters
+//!               and digits, not starting with `Tst`
+//! The module is `TagsMod DEFINITIONS AUTOMATIC TAGS ::= BEGIN Tst ::= SET|SEQUENCE { .. } <definitions> END`
+//! (the crate ignores the tagging mode of the header).  `TAGS_DUMP=1` prints all stages to stderr.
+//! answer   `ok <names in emitted order> <TAG constant per emitted component> <EXTENDED_AFTER_FIELD> <TAG of the type>`
+//!          | `err other` (stage 2 rejects the stage-1 source) | `panic` | `abort` (only `set!`/`seq!`:
+//!          the request runs in a child process)
+//!
+//! Pipeline (exactly what a user of the crate gets):
+//!   stage 1 (converter / `asn_to_rust!`): module text -> `Tokenizer` -> `Model::try_from` ->
+//!     `try_resolve` -> `to_rust_with_scope` -> `RustCodeGenerator` -> Rust source with `#[asn(..)]`
+//!     attributes;
+//!   stage 2 (the `#[asn(..)]` attribute macro): `asn1rs_model::proc_macro::parse(attr, item)` ->
+//!     `AsnDefWriter::stringify` -> descriptor code.  The order of the `read_value` calls in
+//!     `read_seq` / `write_value` calls in `write_seq` is the wire (and presence-bit) order; the
+//!     `TAG` constants are the tags assigned to the components.
+use asn1rs::model::generate::Generator;
+use asn1rs::model::generate::RustCodeGenerator;
+use asn1rs::model::parse::Tokenizer;
+use asn1rs::model::Model;
+
+/// splits at `sep` outside of `[..]`
+fn split_top(s: &str, sep: char) -> Vec<&str> {
+    let mut out = Vec::new();
+    let mut depth = 0usize;
+    let mut start = 0usize;
+    for (i, c) in s.char_indices() {
+        match c {
+            '[' => depth += 1,
+            ']' => depth = depth.saturating_sub(1),
+            c if c == sep && depth == 0 => {
+                out.push(&s[start..i]);
+                start = i + c.len_utf8();
+            }
+            _ => {}
+        }
+    }
+    out.push(&s[start..]);
+    out
+}
+
+/// type names: an upper-case letter, then letters and digits; `Tst…` is reserved for the type
+/// under test and the inline types the converter extracts from it
+fn is_type_name(s: &str) -> bool {
+    matches!(s.chars().next(), Some(f) if f.is_ascii_uppercase())
+        && s.chars().all(|c| c.is_ascii_alphanumeric())
+        && !s.starts_with("Tst")
+}
+
+/// component names: one lower-case letter and digits (never a Rust keyword, never re-cased)
+fn is_field_name(s: &str) -> bool {
+    let mut c = s.chars();
+    matches!(c.next(), Some(f) if f.is_ascii_lowercase()) && c.all(|d| d.is_ascii_digit())
+}
+
+fn tag_text(t: &str) -> Option<String> {
+    if t == "-" {
+        return Some(String::new());
+    }
+    let mut cs = t.chars();
+    let cl = cs.next()?;
+    let num = cs.as_str();
+    if num.is_empty() || num.len() > 18 || !num.chars().all(|c| c.is_ascii_digit()) {
+        return None;
+    }
+    Some(match cl {
+        'U' => format!("[UNIVERSAL {}] ", num),
+        'A' => format!("[APPLICATION {}] ", num),
+        'C' => format!("[{}] ", num),
+        'P' => format!("[PRIVATE {}] ", num),
+        _ => return None,
+    })
+}
+
+fn type_text(t: &str) -> Option<String> {
+    Some(match t {
+        "bool" => "BOOLEAN".to_string(),
+        "int" => "INTEGER".to_string(),
+        "bits" => "BIT STRING".to_string(),
+        "octs" => "OCTET STRING".to_string(),
+        "null" => "NULL".to_string(),
+        "enum" => "ENUMERATED { e0, e1 }".to_string(),
+        "utf8" => "UTF8String".to_string(),
+        "num" => "NumericString".to_string(),
+        "print" => "PrintableString".to_string(),
+        "vis" => "VisibleString".to_string(),
+        "ia5" => "IA5String".to_string(),
+        "seq" => "SEQUENCE { s0 BOOLEAN }".to_string(),
+        "seqof" => "SEQUENCE OF BOOLEAN".to_string(),
+        "set" => "SET { s0 BOOLEAN }".to_string(),
+        "setof" => "SET OF BOOLEAN".to_string(),
+        _ => {
+            if let Some(name) = t.strip_prefix('@') {
+                if !is_type_name(name) {
+                    return None;
+                }
+                name.to_string()
+            } else if let Some(body) = t.strip_prefix("ch[").and_then(|r| r.strip_suffix(']')) {
+                let mut parts = Vec::new();
+                let mut n = 0usize;
+                let mut marker = false;
+                for v in split_top(body, '|') {
+                    if v == "..." {
+                        // the real CHOICE parser rejects these two; not a well-formed request
+                        if n == 0 || marker {
+                            return None;
+                        }
+                        marker = true;
+                        parts.push("...".to_string());
+                    } else {
+                        let (tag, ty) = v.split_once('~')?;
+                        parts.push(format!("v{} {}{}", n, tag_text(tag)?, type_text(ty)?));
+                        n += 1;
+                    }
+                }
+                format!("CHOICE {{ {} }}", parts.join(", "))
+            } else {
+                return None;
+            }
+        }
+    })
+}
+
+/// the ASN.1 module text of a request and the textual component names
+fn module_text(kind: &str, comps: &str, defs: &str) -> Option<(String, Vec<String>)> {
+    let kw = match kind {
+        "set" => "SET",
+        "seq" => "SEQUENCE",
+        _ => return None,
+    };
+    let mut names = Vec::new();
+    let mut items = Vec::new();
+    if comps != "-" {
+        for c in split_top(comps, ',') {
+            if c == "..." {
+                items.push("...".to_string());
+                continue;
+            }
+            let mut p = c.splitn(3, ':');
+            let (name, tag, ty) = (p.next()?, p.next()?, p.next()?);
+            if !is_field_name(name) {
+                return None;
+            }
+            let (ty, opt) = if let Some(t) = ty.strip_suffix('?') {
+                (t, " OPTIONAL")
+            } else if let Some(t) = ty.strip_suffix('!') {
+                // DEFAULT needs a literal of the type: only for BOOLEAN and INTEGER components
+                match t {
+                    "bool" => (t, " DEFAULT TRUE"),
+                    "int" => (t, " DEFAULT 5"),
+                    _ => return None,
+                }
+            } else {
+                (ty, "")
+            };
+            items.push(format!("{} {}{}{}", name, tag_text(tag)?, type_text(ty)?, opt));
+            names.push(name.to_string());
+        }
+    }
+    let mut text = String::from("TagsMod DEFINITIONS AUTOMATIC TAGS ::= BEGIN\n");
+    text.push_str(&format!("Tst ::= {} {{ {} }}\n", kw, items.join(", ")));
+    if defs != "-" {
+        for d in split_top(defs, ';') {
+            let (name, rest) = d.split_once('=')?;
+            if !is_type_name(name) {
+                return None;
+            }
+            let (tag, ty) = rest.split_once(':')?;
+            text.push_str(&format!("{} ::= {}{}\n", name, tag_text(tag)?, type_text(ty)?));
+        }
+    }
+    text.push_str("END\n");
+    Some((text, names))
+}
+
+/// stage 1: the Rust source the converter writes for the module
+fn stage1(text: &str) -> Result<String, &'static str> {
+    let tokens = Tokenizer.parse(text);
+    let model = Model::try_from(tokens).map_err(|_| "parse")?;
+    let model = model.try_resolve().map_err(|_| "resolve")?;
+    let scope = [&model];
+    let mut generator = RustCodeGenerator::default();
+    generator.add_model(model.to_rust_with_scope(&scope[..]));
+    let files = generator.to_string().map_err(|_| "generate")?;
+    Ok(files
+        .into_iter()
+        .map(|(_file, content)| content)
+        .collect::<Vec<_>>()
+        .join("\n"))
+}
+
+/// the `#[asn(..)]`-annotated item `struct <name>` of the stage-1 source: (attribute args, item)
+fn find_item(src: &str, name: &str) -> Option<(String, String)> {
+    let lines: Vec<&str> = src.lines().collect();
+    let head = format!("pub struct {}", name);
+    let at = lines.iter().position(|l| {
+        l.strip_prefix(&head)
+            .map(|r| r.starts_with(' ') || r.starts_with(';') || r.starts_with('('))
+            .unwrap_or(false)
+    })?;
+    // the attribute lines directly above (`#[asn(..)]`, `#[derive(..)]`)
+    let mut first = at;
+    while first > 0 && (lines[first - 1].starts_with("#[") || lines[first - 1].trim().is_empty()) {
+        first -= 1;
+    }
+    let mut attr = None;
+    let mut item = String::new();
+    for l in &lines[first..at] {
+        if let Some(a) = l.strip_prefix("#[asn(").and_then(|r| r.strip_suffix(")]")) {
+            attr = Some(a.to_string());
+        } else {
+            item.push_str(l);
+            item.push('\n');
+        }
+    }
+    for l in &lines[at..] {
+        item.push_str(l);
+        item.push('\n');
+        if *l == "}" || (l.starts_with("pub struct") && l.ends_with(';')) || l.ends_with("{}") {
+            break;
+        }
+    }
+    Some((attr?, item))
+}
+
+/// The attribute macro reports its errors with `println!`.  Inside this process that would end up
+/// between the answers of the line protocol, so file descriptor 1 points to /dev/null while the
+/// macro code runs (restored on drop, also when unwinding).
+struct SilencedStdout {
+    saved: i32,
+}
+
+extern "C" {
+    fn dup(fd: i32) -> i32;
+    fn dup2(from: i32, to: i32) -> i32;
+    fn close(fd: i32) -> i32;
+}
+
+impl SilencedStdout {
+    fn new() -> Option<Self> {
+        use std::io::Write;
+        use std::os::fd::AsRawFd;
+        // whatever std still holds of earlier answers belongs to the real stdout
+        std::io::stdout().flush().ok()?;
+        let null = std::fs::OpenOptions::new().write(true).open("/dev/null").ok()?;
+        // SAFETY: plain POSIX calls on descriptors this process owns
+        unsafe {
+            let saved = dup(1);
+            if saved < 0 || dup2(null.as_raw_fd(), 1) < 0 {
+                return None;
+            }
+            Some(SilencedStdout { saved })
+        }
+    }
+}
+
+impl Drop for SilencedStdout {
+    fn drop(&mut self) {
+        use std::io::Write;
+        let _ = std::io::stdout().flush();
+        // SAFETY: see above
+        unsafe {
+            dup2(self.saved, 1);
+            close(self.saved);
+        }
+    }
+}
+
+/// stage 2: what the attribute macro expands the item to (descriptor code only)
+fn stage2(attr: &str, item: &str) -> Option<String> {
+    let attr = attr.parse().ok()?;
+    let item = item.parse().ok()?;
+    let _quiet = SilencedStdout::new()?;
+    let out = asn1rs::model::proc_macro::parse(attr, item);
+    Some(out.to_string())
+}
+
+fn squeeze(s: &str) -> String {
+    s.chars().filter(|c| !c.is_whitespace()).collect()
+}
+
+/// `Universal(1)` -> `U1`
+fn short_tag(t: &str) -> Option<String> {
+    let (cl, rest) = t.split_once('(')?;
+    let num = rest.strip_suffix(')')?;
+    let c = match cl {
+        "Universal" => "U",
+        "Application" => "A",
+        "ContextSpecific" => "C",
+        "Private" => "P",
+        _ => return None,
+    };
+    Some(format!("{}{}", c, num))
+}
+
+fn camel(field: &str) -> String {
+    asn1rs::model::generate::RustCodeGenerator::rust_variant_name(field)
+}
+
+/// `set!` / `seq!`: the same request answered by a child process, so that a stack overflow of the
+/// real front end (it aborts the process, it does not unwind) becomes the answer `abort`
+fn isolated(kind: &str, rest: &[&str]) -> Option<String> {
+    use std::io::Write;
+    use std::process::{Command, Stdio};
+    let exe = std::env::current_exe().ok()?;
+    let mut child = Command::new(exe)
+        .stdin(Stdio::piped())
+        .stdout(Stdio::piped())
+        .stderr(Stdio::null())
+        .spawn()
+        .ok()?;
+    let line = format!("tags {} {}\n", kind, rest.join(" "));
+    child.stdin.take()?.write_all(line.as_bytes()).ok()?;
+    let out = child.wait_with_output().ok()?;
+    let text = String::from_utf8_lossy(&out.stdout);
+    match text.lines().next() {
+        Some(l) if out.status.success() => Some(l.to_string()),
+        _ => Some("abort".to_string()),
+    }
+}
+
+pub fn handle(args: &[&str]) -> Option<String> {
+    let (kind, comps, defs) = match args {
+        [k, c] => (*k, *c, "-"),
+        [k, c, d] => (*k, *c, *d),
+        _ => return None,
+    };
+    if let Some(k) = kind.strip_suffix('!') {
+        if k != "set" && k != "seq" {
+            return None;
+        }
+        return match isolated(k, &args[1..])?.as_str() {
+            "bad-op" => None,
+            a => Some(a.to_string()),
+        };
+    }
+    let (text, names) = module_text(kind, comps, defs)?;
+    let dump = std::env::var_os("TAGS_DUMP").is_some();
+    if dump {
+        eprintln!("---- module\n{}", text);
+    }
+    let src = match stage1(&text) {
+        Ok(s) => s,
+        Err(e) => return Some(format!("err {}", e)),
+    };
+    if dump {
+        eprintln!("---- stage 1\n{}", src);
+    }
+    let (attr, item) = find_item(&src, "Tst")?;
+    let out = stage2(&attr, &item)?;
+    if dump {
+        eprintln!("---- stage 2\n{}", out);
+    }
+    let flat = squeeze(&out);
+    if flat.contains("compile_error!") {
+        // the attribute macro rejects the stage-1 source: the user gets a compile error
+        return Some("err other".to_string());
+    }
+    // order of the reads in read_seq and of the writes in write_seq
+    let rs = flat.find("fnread_seq<")?;
+    let ws = flat.find("fnwrite_seq<")?;
+    let (read_part, write_part) = if rs < ws {
+        (&flat[rs..ws], &flat[ws..])
+    } else {
+        (&flat[rs..], &flat[ws..rs])
+    };
+    let mut read_order: Vec<(usize, &String)> = Vec::new();
+    let mut write_order: Vec<(usize, &String)> = Vec::new();
+    for n in &names {
+        let r = format!("{}:AsnDefTstField{}::read_value(reader)?", n, camel(n));
+        let w = format!("AsnDefTstField{}::write_value(writer,&self.{})?", camel(n), n);
+        read_order.push((read_part.find(&r)?, n));
+        write_order.push((write_part.find(&w)?, n));
+    }
+    read_order.sort();
+    write_order.sort();
+    let ro: Vec<&str> = read_order.iter().map(|(_, n)| n.as_str()).collect();
+    let wo: Vec<&str> = write_order.iter().map(|(_, n)| n.as_str()).collect();
+    if ro != wo {
+        // never observed: reader and writer are generated from the same list
+        return Some(format!("ok-but-read-write-differ {} {}", ro.join(","), wo.join(",")));
+    }
+    // TAG constant of every component, and of the type itself
+    let tag_of = |constraint: &str| -> Option<String> {
+        let key = format!(
+            "impl::asn1rs::descriptor::common::Constraintfor{}{{constTAG:::asn1rs::model::asn::Tag=::asn1rs::model::asn::Tag::",
+            constraint
+        );
+        let at = flat.find(&key)? + key.len();
+        let end = flat[at..].find(';')? + at;
+        short_tag(&flat[at..end])
+    };
+    let mut tags = Vec::new();
+    for n in &ro {
+        tags.push(tag_of(&format!("___asn1rs_TstField{}Constraint", camel(n)))?);
+    }
+    let own = tag_of("Tst")?;
+    let key = "constEXTENDED_AFTER_FIELD:Option<u64>=";
+    let at = flat.find(key)? + key.len();
+    let end = flat[at..].find(';')? + at;
+    let ext = match &flat[at..end] {
+        "None" => "none".to_string(),
+        s => s.strip_prefix("Some(")?.strip_suffix(')')?.to_string(),
+    };
+    let list = |v: &[&str]| if v.is_empty() { "-".to_string() } else { v.join(",") };
+    let tl: Vec<&str> = tags.iter().map(|s| s.as_str()).collect();
+    Some(format!("ok {} {} {} {}", list(&ro), list(&tl), ext, own))
 }
